@@ -1,11 +1,13 @@
 """C06 - every reported location denotes exactly the text of its node."""
-from contracts import k_bistr
+from contracts import k_bistr, k_cache
 from pyvc.contract import verify_all
 from pyvc import native
 
 
 def run(rep, tier, seed):
-    verify_all(rep, k_bistr.specs('C06'))
+    # pars() answers each of its three modes from that mode's own memo slot; coordinate accessors agree with .loc
+    memo = [s for s in k_cache.specs('C06') if s.name == 'memo.pars' or s.name.startswith('coords.')]
+    verify_all(rep, k_bistr.specs('C06') + memo)
     rep.assumptions.append('no Python string is longer than sys.maxsize bytes (bound on the values stored in bistr\'s '
                            'fixed-width arrays; the only machine-width arithmetic in the library)')
     sec = native.run('b_read', 'main', {'props': ['C06'], 'tier': tier, 'seed': seed}, timeout=7200)
